@@ -7,6 +7,7 @@ import (
 	"net/http"
 	"net/url"
 	"sort"
+	"strconv"
 	"strings"
 
 	"github.com/gookit/rux"
@@ -47,8 +48,9 @@ type ReqRec struct {
 	StartSeq int64    `json:"-"`
 	EndSeq   int64    `json:"-"`
 	// abort bookkeeping (positions in Trace)
-	AbortAt []int `json:"-"`
-	PanicAt []int `json:"-"`
+	AbortAt  []int `json:"-"`
+	PanicAt  []int `json:"-"`
+	PanicSeq int64 `json:"-"`
 }
 
 // Canon is the comparable part of a record as one string.
@@ -354,27 +356,36 @@ func (w *World) act(rs *reqState, id string, c *rux.Context, a Action) {
 	case "obs":
 		add("obs", w.observe(rs, c))
 	case "write":
+		add("do", "write:"+a.S)
 		n, err := c.Resp.Write([]byte(a.S))
 		add("w", fmt.Sprintf("%d,%v,len=%d", n, err, c.Length()))
 	case "wstr":
+		add("do", "wstr:"+a.S)
 		c.WriteString(a.S)
 	case "status":
+		add("do", "status:"+strconv.Itoa(a.N))
 		c.SetStatus(a.N)
 	case "rawstatus":
+		add("do", "status:"+strconv.Itoa(a.N))
 		c.Resp.WriteHeader(a.N)
 	case "header":
 		c.SetHeader(a.S, a.V)
 	case "flush":
 		if f, ok := c.Resp.(http.Flusher); ok {
+			add("do", "flush")
 			f.Flush()
 		}
 	case "httperr":
+		add("do", "httperr:"+strconv.Itoa(a.N)+":"+a.S)
 		c.HTTPError(a.S, a.N)
 	case "redirect":
+		add("do", "redirect:"+strconv.Itoa(a.N)+":"+a.S)
 		c.Redirect(a.S, a.N)
 	case "text":
+		add("do", "text:"+strconv.Itoa(a.N)+":"+a.S)
 		c.Text(a.N, a.S)
 	case "nocontent":
+		add("do", "status:204")
 		c.NoContent()
 	case "next":
 		taskYield(siteHNext)
@@ -392,6 +403,11 @@ func (w *World) act(rs *reqState, id string, c *rux.Context, a Action) {
 		rec.AbortAt = append(rec.AbortAt, len(rec.Trace))
 		add("abort", fmt.Sprintf("status %d %s", a.N, a.S))
 		if a.S != "" {
+			add("do", "httperr:"+strconv.Itoa(a.N)+":"+a.S)
+		} else {
+			add("do", "status:"+strconv.Itoa(a.N))
+		}
+		if a.S != "" {
 			c.AbortWithStatus(a.N, a.S)
 		} else {
 			c.AbortWithStatus(a.N)
@@ -399,17 +415,10 @@ func (w *World) act(rs *reqState, id string, c *rux.Context, a Action) {
 	case "panic":
 		rec.PanicAt = append(rec.PanicAt, len(rec.Trace))
 		add("panic", a.S)
-		switch a.S {
-		case "err":
-			panic(errors.New("boom-err:" + id))
-		case "rt":
-			var m map[string]int
-			m["x"] = 1
-		case "aborthandler":
-			panic(http.ErrAbortHandler)
-		default:
-			panic("boom:" + id)
+		if rec.PanicSeq == 0 {
+			rec.PanicSeq = shNextSeq()
 		}
+		doPanic(a.S, id)
 	case "set":
 		c.Set(a.S, a.V)
 	case "adderr":
@@ -550,6 +559,28 @@ func (w *World) Serve(task, idx int, rq *Req) *ReqRec {
 	return rec
 }
 
+// doPanic panics with a value of the given kind.
+func doPanic(kind, id string) {
+	switch kind {
+	case "err":
+		panic(errors.New("boom-err:" + id))
+	case "rt":
+		var m map[string]int
+		m[id] = 1 // runtime error: assignment to entry in nil map
+	case "aborthandler":
+		panic(http.ErrAbortHandler)
+	default:
+		panic("boom:" + id)
+	}
+}
+
+// panicValue returns the value doPanic(kind, id) panics with.
+func panicValue(kind, id string) (v any) {
+	defer func() { v = recover() }()
+	doPanic(kind, id)
+	return nil
+}
+
 func panicString(r any) string {
 	switch v := r.(type) {
 	case error:
@@ -612,4 +643,17 @@ func installHooks() {
 	rux.VerifHooks.PoolPut = hookPoolPut
 	rux.VerifHooks.Order = hookOrder
 	rux.VerifHooks.Actions = hookActions
+}
+
+// BuiltinFallback reports whether a request for (method, path) is answered by
+// rux's built-in 404/405 handler (whose writes the harness trace cannot show).
+func (w *World) BuiltinFallback(method, path string) bool {
+	route, _, allowed := w.R.Match(method, path)
+	if route != nil {
+		return false
+	}
+	if len(allowed) > 0 {
+		return len(w.notAllow) == 0
+	}
+	return len(w.notFound) == 0
 }
